@@ -27,7 +27,7 @@ def signature(why, rec):
 def judge(ctx, recs, origin):
     traces = [sp.c01_trace(r) for r in recs]
     verdicts = ctx.validate('TraceSynthGraph', 'TraceSynthGraph.cfg', traces, timeout=1500,
-                            env={'JAVA_TOOL_OPTIONS': '-Xss32m'})
+                            env={'JAVA_TOOL_OPTIONS': sp.JVM_OPTS})
     bad = 0
     for r in recs:
         prog = r['prog']
@@ -51,27 +51,30 @@ def judge(ctx, recs, origin):
 def run(ctx):
     thorough = not ctx.quick
     group = 'thorough' if thorough else 'quick'
-    nsim = 4000 if thorough else 200
+    nsim = 3000 if thorough else 200
     jobs = [
         # 1. design model with the vacuity guard: every generator action taken, reference compilation accepted,
         #    a dropped side-effecting unit rejected (invariants NaiveOK / DropDetected of SynthGraphGen.tla)
         lambda: sp.tlc_programs(ctx, 'coverS', cover=ALL_ACTIONS, workers=2, timeout=600, label='coverS (coverage)'),
+        # 1b. L2: every stage of the transcribed optimiser (after construction, after each unit's optimisation,
+        #     after the sort) implements the program (invariant OptOK of SynthOpt.tla)
+        lambda: sp.tlc_programs(ctx, 'quick' if thorough else 'l2S', timeout=3000, workers=6 if thorough else 3,
+                                module='SynthOpt', label='optimiser model: every rewrite preserves the denotation'),
         # 2. S->C: every program of every slice of the tier (same invariants checked on all of them)
         lambda: sp.tlc_programs(ctx, group, timeout=3000, workers=10, label='all programs of group ' + group),
         # 3. longer programs: random walks of the generator over the big vocabulary
         lambda: sp.tlc_programs(ctx, 'long', simulate='num=%d' % nsim, depth=30, seed=ctx.seed + 7, timeout=1500,
                                 label='simulated long programs'),
     ]
-    if not thorough:
-        jobs.append(lambda: sp.tlc_programs(ctx, 'thorough', simulate='num=300', depth=10, seed=ctx.seed + 8,
-                                            timeout=600, label='sample of the thorough slices'))
+    jobs.append(lambda: sp.tlc_programs(ctx, 'sampled', simulate='num=%d' % (6000 if thorough else 300), depth=10,
+                                        seed=ctx.seed + 8, timeout=1500, label='random walks of the big slices'))
     with ThreadPoolExecutor(max_workers=len(jobs)) as ex:
         res = [f.result() for f in [ex.submit(j) for j in jobs]]
-    progs = list(res[1])
+    progs = list(res[2])
     nexh = len(progs)
-    longp = res[2]
+    longp = res[3]
     progs += longp
-    for extra in res[3:]:
+    for extra in res[4:]:
         progs += extra
     per_slice = {}
     for i, p in enumerate(progs):
@@ -79,6 +82,18 @@ def run(ctx):
         p['name'] = '%s_%d' % (p['name'], i)
     recs = sp.run_builds(ctx, progs)
     judge(ctx, recs, 'generated')
+    # 4. L2 binding: SynthOpt.tla (builder + optimiser transcribed; TLC checked above that each of its rewrites
+    #    preserves the denotation) must PREDICT the emitted definition exactly; a difference is model drift
+    sample = recs if thorough else recs[::3]
+    vd = ctx.validate('TraceSynthOpt', 'TraceSynthOpt.cfg', [sp.c01_trace(r_) for r_ in sample], timeout=3000,
+                      env={'JAVA_TOOL_OPTIONS': sp.JVM_OPTS, 'VERIF_SLICE': 'coverS'})
+    ndrift = 0
+    for r_ in sample:
+        v = vd[r_['id']]
+        if v is not None:
+            ndrift += 1
+            ctx.note_drift('%s on program %s' % (v[1], [(i['op'], i['cls'] or i['sel']) for i in r_['prog']['ins']]))
+    ctx.cov['l2_predictions'] = dict(compared=len(sample), exact=len(sample) - ndrift, drift=ndrift)
     for r_ in (recs[nexh // 2], recs[nexh + len(longp) // 2]):
         ctx.sample(dict(program=r_['prog'], raised=r_['raised'],
                         emitted=[[u['c'], u['r'], u['sp'], u['ins']] for d in r_['parsed']['defs'] for u in d['units']],
@@ -108,8 +123,8 @@ def replay(ctx, rp):
 
 MANIFEST = dict(
     category='model_checking',
-    text='(filled in below)',
-    note='',
+    text=("Graph functions are abstracted as programs (unit constructors, unary/binary operators, madd, sum, constants, controls, shared results). SynthGraph.tla gives every expression a value in the field Z_10007 (+ - * / neg are field operations, every other operator is an uninterpreted function of its server opcode index, taken from the spec's own transcription of Opcodes.h) and defines Implements(prog, def, m). TLC (a) checks on every enumerated program that a reference compilation satisfies the relation and that dropping a side-effecting unit violates it, (b) enumerates all programs of 13 vocabulary slices (quick ~6k, thorough ~10^5 programs) and random walks of up to 12 instructions over a large vocabulary, which the driver builds with the real constructors/operators, and (c) decides for every decoded definition + certificate whether it implements its program: side-effecting units exactly once, class/rate/arity, every input equal to the source expression in 6 environments, only operator/silence/control units extra, operator rate = max input rate, well-formed programs compile."),
+    note=('Not decided: float (non-integer) constants, demand rate, server-side meaning of uninterpreted opcodes, programs outside the decidable fragment (operators applied to plain numbers). Equality is probabilistic (Schwartz-Zippel over Z_p, 6 environments). Trusted: TLC, harness/scgf.py (independent SCgf reader), the driver table that says how each operator is written in Python. The optimiser itself is not transcribed (L2 growth stage): the relation is checked on its output.'),
     technique='TLA+ denotational spec (Z_p evaluation, opcode table, certificate-checked Implements relation) evaluated by TLC on '
               'every build of TLC-enumerated programs',
     design_ref='DESIGN.md section 3 / C01',
